@@ -64,6 +64,8 @@ type Ctx struct {
 	GOOS    string
 	loaded  bool
 	noFollow map[string]bool // functions the effect engine must not treat as helpers (they are rule roots themselves)
+	normalised bool           // the program is the normalised form (helpers inlined)
+	deadFns    map[*ast.FuncDecl]bool
 }
 
 type propDef struct {
@@ -302,6 +304,7 @@ func runProp(pd *propDef, tier, repo, verif string, seed int) int {
 				}
 			}()
 			c.load("", overlay)
+			c.normalised = overlay != nil
 			pd.Run(c)
 			if selftests && tier == "thorough" {
 				runSelfTests(c, pd)
